@@ -11,10 +11,11 @@ import types
 
 PROP = "C06"
 LEAN_MODULE = "Ztr.Props.C06Run"
-LEAN_DEPS = ["Ztr.Props.C06"]
+LEAN_DEPS = ["Ztr.Props.C06", "Ztr.Props.C06Dots"]
 THEOREMS = ["Ztr.Sched.C06_at_most_N", "Ztr.Sched.C06_progress", "Ztr.Sched.C06_blocks_in_order",
             "Ztr.Sched.C06_prints_all_done", "Ztr.Runner.C06_layer_same_in_every_process",
-            "Ztr.Runner.C06_whole_run", "Ztr.Runner.C06_equals_sequential"]
+            "Ztr.Runner.C06_whole_run", "Ztr.Runner.C06_equals_sequential", "Ztr.Channel.C06_dots_exact",
+            "Ztr.Channel.C06_keeps_all_but_dots"]
 RULE = ("k = 1..4 layers (quick: all k! completion orders for k <= 3, sampled for k = 4; thorough: all orders for "
         "k <= 5), N in 1..k+1, the three result collectors (verbosity 0 / 2 / N = 1), 0-3 output lines per child plus "
         "keep-alive dot lines; the real resume_tests runs in a thread against fake children released in the chosen "
